@@ -98,6 +98,9 @@ def _inv(cap):
         ('res-spec', lambda e: SBool(vreify(e.proto_imf) == RES(XV, N, lift(e.layer)))),
         ('components', lambda e: forall(0, e.layer, lambda k: forall(0, N, lambda t: e.imf.elem(lift(t), lift(k)) == COMP(XV, N, lift(k))[lift(t)]))),
         ('exit-reason', exit_reason),
+        # the sift never extracts again after an extraction that cleared the continue flag (so a capped run is a prefix of the uncapped one)
+        ('earlier-extractions-continued', lambda e: SBool(z3.ForAll([z3.Int('fk')], z3.Implies(z3.And(0 <= z3.Int('fk'), z3.Int('fk') < lift(e.layer) - 1), GF(RES(XV, N, z3.Int('fk')), N))))),
+        ('continuing-means-the-last-extraction-continued', lambda e: implies(and_(e.continue_sift, e.layer >= 1), SBool(GF(RES(XV, N, lift(e.layer) - 1), N)))),
     ]
     if cap:
         inv.append(('cap', lambda e: and_(e.layer <= wrap(CAP), implies(e.continue_sift, lambda: e.layer < wrap(CAP)))))
@@ -122,6 +125,7 @@ def _post(cap):
         c.oblige('post:final-component-non-oscillatory-unless-cut-short', z3.Implies(not_cut_short, z3.Not(has(last, N))), 'post')
         c.oblige('post:kth-component-is-extraction-from-input-minus-previous-components',
                  z3.Implies(z3.And(0 <= k, k < ncols, 0 <= t, t < N), ret.elem(t, k) == COMP(XV, N, k)[t]), 'post')
+        c.oblige('post:no-extraction-after-one-that-cleared-the-continue-flag', z3.Implies(z3.And(0 <= k, k < ncols - 1), GF(RES(XV, N, k), N)), 'post')
     return post
 
 
